@@ -163,9 +163,12 @@ theorem all_setters_reject_unrepresentable_fails : ¬ AllSettersRejectUnrepresen
   revert this
   decide
 
-/-- the excluded region, explicitly: exactly the four STP timer setters -/
+/-- the excluded region, explicitly: the DNS header flag/code setters (uint8_t parameters for 1- and 4-bit fields,
+    known finding KF-C15-6) and the four STP timer setters (KF-C15-1..4) -/
 theorem truncating_rows : truncating =
-    [("STP", "msg_age"), ("STP", "max_age"), ("STP", "hello_time"), ("STP", "fwd_delay")] := by decide
+    [("DNS", "opcode"), ("DNS", "authoritative_answer"), ("DNS", "truncated"), ("DNS", "recursion_desired"),
+     ("DNS", "recursion_available"), ("DNS", "z"), ("DNS", "authenticated_data"), ("DNS", "checking_disabled"), ("DNS", "rcode"),
+     ("STP", "msg_age"), ("STP", "max_age"), ("STP", "hello_time"), ("STP", "fwd_delay")] := by decide
 
 /-- the rejection clause for every setter outside the excluded region -/
 theorem all_setters_reject_unrepresentable_partial (k : Cls) (fld : String) (a : ArgInfo) (r : Row)
